@@ -287,8 +287,15 @@ func lexStmt(l *lexer) stateFn {
 			l.emit(itemSemiColon)
 			return lexStmt
 		case r == '+':
-			l.emit(itemPlus)
-			return lexStmt
+			// '+' only concatenates quoted strings; anywhere else it is
+			// the first character of an unquoted string (eg "default +5;")
+			if nr := l.peek(); nr == eof || isTerminator(nr) || nr == '\'' ||
+				strings.HasPrefix(l.input[l.pos:], leftComment) ||
+				strings.HasPrefix(l.input[l.pos:], lineComment) {
+				l.emit(itemPlus)
+				return lexStmt
+			}
+			return lexString
 		default:
 			l.backup()
 			return lexString
